@@ -422,6 +422,11 @@ type wsUpgrader interface {
 
 // wsPair sets up client and server codecs of one WebSocket library joined by shimmed TCP connections.
 func wsPair(t interface{ Fatalf(string, ...interface{}) }, lib string) (client, server jsonrpc2.Codec, cshim, sshim *shimConn, cleanup func()) {
+	return wsPair2(t, lib, lib)
+}
+
+// wsPair2 connects a client of one WebSocket implementation to a server of (possibly) the other one.
+func wsPair2(t interface{ Fatalf(string, ...interface{}) }, lib, clientLib string) (client, server jsonrpc2.Codec, cshim, sshim *shimConn, cleanup func()) {
 	var up wsUpgrader
 	if lib == "gorilla" {
 		up = &gorilla.Upgrader{}
@@ -453,7 +458,7 @@ func wsPair(t interface{ Fatalf(string, ...interface{}) }, lib string) (client, 
 	}
 	url := "ws" + strings.TrimPrefix(ts.URL, "http") + "/"
 	var err error
-	if lib == "gorilla" {
+	if clientLib == "gorilla" {
 		old := websocket.DefaultDialer.NetDial
 		websocket.DefaultDialer.NetDial = dial
 		client, err = gorilla.WebSocketDial(context.Background(), url)
@@ -484,7 +489,13 @@ func wsPair(t interface{ Fatalf(string, ...interface{}) }, lib string) (client, 
 }
 
 func wsCase(rt *rapid.T, rec *vt.Rec, lib string) {
-	client, server, cshim, sshim, cleanup := wsPair(rt, lib)
+	// the peer is usually the same implementation; both are in the repository, so a client of the other one is a
+	// legitimate peer too (it frames its messages differently: binary instead of text frames)
+	clientLib := lib
+	if rapid.IntRange(0, 2).Draw(rt, "otherClientImplementation") == 0 {
+		clientLib = map[string]string{"gorilla": "gobwas", "gobwas": "gorilla"}[lib]
+	}
+	client, server, cshim, sshim, cleanup := wsPair2(rt, lib, clientLib)
 	defer cleanup()
 	dir := rapid.SampledFrom([]string{"client->server", "server->client"}).Draw(rt, "direction")
 	w, r, wshim, rshim := client, server, cshim, sshim
@@ -559,7 +570,7 @@ func wsCase(rt *rapid.T, rec *vt.Rec, lib string) {
 			minChunk = c
 		}
 	}
-	rec.Case(fmt.Sprintf("ws|%s|%s|%d|%v|%d", lib, dir, n, readPat, batch), n >= 2 && (batch > 1 || minChunk < 64), []string{"ws:" + lib, fmt.Sprintf("ws:batched:%v", batch > 1), fmt.Sprintf("ws:split:%v", minChunk < 64)}, func() interface{} {
+	rec.Case(fmt.Sprintf("ws|%s<-%s|%s|%d|%v|%d", lib, clientLib, dir, n, readPat, batch), n >= 2 && (batch > 1 || minChunk < 64), []string{"ws:" + lib, "ws:server=" + lib + ",client=" + clientLib, fmt.Sprintf("ws:batched:%v", batch > 1), fmt.Sprintf("ws:split:%v", minChunk < 64)}, func() interface{} {
 		return map[string]interface{}{"codec": "websocket/" + lib, "direction": dir, "messages": n, "read_pattern": readPat, "frames_per_tcp_write": batch}
 	})
 }
